@@ -811,11 +811,417 @@ theorem getB_next (cy : Bool) (n : Net) (p : Ref) (i : Int) (form : Form) (copy 
     · exact hx
   unfold getB
   simp only
+  split
+  · exact NExt.refl n
+  · split
+    · exact NExt.refl n
+    · split
+      · exact mk _ (hfin _ (hcopy _))
+      · split
+        · exact mk _ (hfin _ (hcopy _))
+        · split
+          · exact NExt.refl n
+          · split
+            · exact NExt.refl n
+            · rename_i r3 e3
+              have f1 := (scaleBoth_frame _ _ _ _ _ _ _ _ _ _ _ r3.1 r3.2 e3).1
+              exact mk _ (hfin _ ((hcopy _).trans f1))
+
+end TenpyModel.C03
+
+namespace TenpyModel.C03
+
+/-- everything `set_B` can write: the MPS object, its `form` list, its `_B` list, and (by `itranspose`) the given tensor -/
+theorem setB_shape (cy : Bool) (n : Net) (p : Ref) (i : Int) (B : Ref) (form : Form) (t : TrHint) :
+    let n' := (setB cy n p i B form t).1
+    (n'.mps = n.mps ∨ ∃ v, n'.mps = n.mps.set p v) ∧ (n'.vl = n.vl ∨ ∃ v, n'.vl = n.vl.set (n.mpsO p).form v)
+      ∧ (n'.tl = n.tl ∨ ∃ v, n'.tl = n.tl.set (n.mpsO p).B v) ∧ (n'.h = n.h ∨ n'.h = transposeH cy n.h B t)
+      ∧ n'.sb = n.sb ∧ n'.sl = n.sl ∧ n'.mpo = n.mpo := by
+  unfold setB
+  simp only
+  repeat' split
+  all_goals
+    refine ⟨?_, ?_, ?_, ?_, rfl, rfl, rfl⟩ <;> first | exact Or.inl rfl | exact Or.inr ⟨_, rfl⟩ | exact Or.inr rfl
+
+theorem setS_shape (n : Net) (p : Ref) (i : Int) (left : Bool) (s : Option Ref) :
+    let n' := (setS n p i left s).1
+    (n'.sl = n.sl ∨ ∃ v, n'.sl = n.sl.set (n.mpsO p).S v) ∧ n'.h = n.h ∧ n'.tl = n.tl ∧ n'.sb = n.sb ∧ n'.vl = n.vl
+      ∧ n'.mps = n.mps ∧ n'.mpo = n.mpo := by
+  unfold setS
+  simp only
+  repeat' split
+  all_goals
+    refine ⟨?_, rfl, rfl, rfl, rfl, rfl, rfl⟩ <;> first | exact Or.inl rfl | exact Or.inr ⟨_, rfl⟩
+
+theorem setW_shape (n : Net) (H : Ref) (i : Int) (W : Ref) :
+    let n' := (setW n H i W).1
+    (n'.tl = n.tl ∨ ∃ v, n'.tl = n.tl.set (n.mpoO H).W v) ∧ n'.h = n.h ∧ n'.sl = n.sl ∧ n'.sb = n.sb ∧ n'.vl = n.vl
+      ∧ n'.mps = n.mps ∧ n'.mpo = n.mpo := by
+  unfold setW
+  simp only
+  repeat' split
+  all_goals
+    refine ⟨?_, rfl, rfl, rfl, rfl, rfl, rfl⟩ <;> first | exact Or.inl rfl | exact Or.inr ⟨_, rfl⟩
+
+theorem editId_shape (n : Net) (H : Ref) (left : Bool) (b v : Nat) :
+    let n' := (editId n H left b v).1
+    (n'.vl = n.vl ∨ ∃ w, n'.vl = n.vl.set (if left then (n.mpoO H).IdL else (n.mpoO H).IdR) w) ∧ n'.h = n.h ∧ n'.tl = n.tl
+      ∧ n'.sl = n.sl ∧ n'.sb = n.sb ∧ n'.mps = n.mps ∧ n'.mpo = n.mpo := by
+  unfold editId
+  simp only
+  repeat' split
+  all_goals
+    refine ⟨?_, rfl, rfl, rfl, rfl, rfl, rfl⟩ <;> first | exact Or.inl rfl | exact Or.inr ⟨_, rfl⟩
+
+/-- a store cell other than the one that may have been written -/
+theorem either_get {α} {l l' : List α} {k : Nat} (e : l' = l ∨ ∃ v, l' = l.set k v) (j : Nat) (hj : j ≠ k) : l'[j]? = l[j]? := by
+  rcases e with e | ⟨v, e⟩ <;> rw [e]
+  exact List.getElem?_set_ne (Ne.symm hj)
+
+/-- `enlarge_mps_unit_cell` / `roll_mps_unit_cell` rebind only: the stores grow, the MPS object is replaced -/
+theorem rebind_mps_next (n : Net) (p : Ref) (v : MpsObj) (tl : List (List Ref)) (sl : List (List (Option Ref)))
+    (vl : List (List Nat)) (q : Ref) (hq : q ≠ p) (hc : closedMps n q = true) :
+    obsMps { n with tl := n.tl ++ tl, sl := n.sl ++ sl, vl := n.vl ++ vl, mps := n.mps.set p v } q = obsMps n q := by
+  obtain ⟨c1, c2, c3, c4, c5, c6, c7⟩ := closedMps_parts hc
+  have em : Net.mpsO { n with tl := n.tl ++ tl, sl := n.sl ++ sl, vl := n.vl ++ vl, mps := n.mps.set p v } q = n.mpsO q := by
+    simp only [Net.mpsO, List.getElem?_set_ne (Ne.symm hq)]
+  refine obsMps_congr q em ?_ ?_ ?_ ?_ (fun _ _ => rfl) (fun _ _ => rfl)
+  · simp only [Net.tlist, get_append_old _ _ _ c2]
+  · simp only [Net.slist, get_append_old _ _ _ c3]
+  · simp only [Net.vlist, get_append_old _ _ _ c4]
+  · simp only [Net.vlist, get_append_old _ _ _ c5]
+
+end TenpyModel.C03
+
+namespace TenpyModel.C03
+
+/-- nothing that exists is observably changed: every closed tensor, MPS and MPO has the same observation -/
+def Unchanged (n n' : Net) : Prop :=
+  (∀ r, closed n.h r = true → observe n'.h r = observe n.h r ∧ closed n'.h r = true)
+    ∧ (∀ q, closedMps n q = true → obsMps n' q = obsMps n q ∧ closedMps n' q = true)
+    ∧ (∀ H, closedMpo n H = true → obsMpo n' H = obsMpo n H ∧ closedMpo n' H = true)
+
+theorem NExt.unchanged {n n' : Net} (x : NExt n n') : Unchanged n n' :=
+  ⟨fun r hc => ⟨(x.h.obs r hc).1, (x.h.obs r hc).2.1⟩, fun q hq => x.mpsObs q hq, fun H hH => x.mpoObs H hH⟩
+
+theorem getW_next (cy : Bool) (n : Net) (H : Ref) (i : Int) (copy : Bool) : NExt n (getW cy n H i copy).1 := by
+  unfold getW
+  simp only
+  split
+  · exact NExt.refl n
+  · split
+    · exact NExt.refl n
+    · refine ⟨?_, fun _ _ => rfl, fun _ _ => rfl, fun _ _ => rfl, fun _ _ => rfl, fun _ _ => rfl, fun _ _ => rfl⟩
+      split
+      · rw [callH_copy]; exact hframe_derive _ _
+      · exact HFrame.refl _
+
+theorem mpoCopy_next (n : Net) (H : Ref) (own : Bool) : NExt n (mpoCopy n H own).1 := by
+  unfold mpoCopy
+  simp only
+  split
+  · exact ⟨HFrame.refl _, fun _ hr => get_append_old _ _ _ hr, fun _ _ => rfl, fun _ _ => rfl,
+      fun _ hr => get_append_old _ _ _ hr, fun _ _ => rfl, fun _ hr => get_append_old _ _ _ hr⟩
+  · exact ⟨HFrame.refl _, fun _ _ => rfl, fun _ _ => rfl, fun _ _ => rfl, fun _ _ => rfl, fun _ _ => rfl,
+      fun _ hr => get_append_old _ _ _ hr⟩
+
+theorem mpoInit_next (cy : Bool) (n : Net) (sites : List Nat) (Ws : Ref) (bc : Nat) (IdL IdR : IdArg) (sane : Bool) :
+    NExt n (mpoInit cy n sites Ws bc IdL IdR sane).1 := by
+  unfold mpoInit
+  simp only
   repeat' split
   all_goals first
     | exact NExt.refl n
-    | exact mk _ (hfin _ (hcopy _))
-    | (have f1 := (scaleBoth_frame _ _ _ _ _ _ _ _ _ _ _ _ _ (by assumption)).1
-       exact mk _ (hfin _ ((hcopy _).trans f1)))
+    | (have hf := (copyTensors_frame cy _ false _ _ _ _ _ (by assumption)).1
+       exact ⟨hf, fun _ hr => get_append_old _ _ _ hr, fun _ _ => rfl, fun _ _ => rfl,
+         fun _ hr => get_append_old _ _ _ hr, fun _ _ => rfl, fun _ hr => get_append_old _ _ _ hr⟩)
+
+/-- what a successful `MPO(...)` returns -/
+theorem mpoInit_ok {cy : Bool} {n : Net} {sites : List Nat} {Ws : Ref} {bc : Nat} {IdL IdR : IdArg} {sane : Bool}
+    {n' : Net} {H : Nat} (e : mpoInit cy n sites Ws bc IdL IdR sane = (n', .ok H)) :
+    ∃ h' newWs idl idr,
+      copyTensors cy (dtypeJoin n.h (n.tlist Ws)) false n.h (n.tlist Ws) [] = some (h', newWs)
+      ∧ getId n sites.length IdL = some idl ∧ getId n sites.length IdR = some idr
+      ∧ n' = { n with h := h', tl := n.tl ++ [newWs], vl := n.vl ++ [sites, idl, idr],
+                      mpo := n.mpo ++ [{ W := n.tl.length, sites := n.vl.length, IdL := n.vl.length + 1, IdR := n.vl.length + 2,
+                                         bc := bc, dtype := dtypeJoin n.h (n.tlist Ws) }] }
+      ∧ H = n.mpo.length := by
+  unfold mpoInit at e
+  simp only at e
+  repeat' split at e
+  all_goals first
+    | (simp only [Prod.mk.injEq, eValue, eIndex, eKey, eAssert, reduceCtorEq, and_false] at e; done)
+    | (simp only [Prod.mk.injEq, Res.ok.injEq] at e
+       obtain ⟨e1, e2⟩ := e
+       exact ⟨_, _, _, _, by assumption, by assumption, by assumption, e1.symm, e2.symm⟩)
+
+theorem getId_length {n : Net} {L : Nat} {a : IdArg} {l : List Nat} (e : getId n L a = some l) : l.length = L + 1 := by
+  cases a with
+  | none_ => simp only [getId, Option.some.injEq] at e; rw [← e]; simp
+  | list r =>
+    simp only [getId] at e
+    split at e
+    · cases e
+    · rename_i hl
+      simp only [Option.some.injEq] at e
+      rw [← e]; simpa using hl
+  | scalar v => simp only [getId, Option.some.injEq] at e; rw [← e]; simp
+
+end TenpyModel.C03
+
+namespace TenpyModel.C03
+theorem ne_of_eq_lt {a b L : Nat} (h1 : a = L) (h2 : b < L) : a ≠ b := by omega
+theorem ne_of_eq_lt1 {a b L : Nat} (h1 : a = L + 1) (h2 : b < L) : a ≠ b := by omega
+theorem ne_of_eq_lt2 {a b L : Nat} (h1 : a = L + 2) (h2 : b < L) : a ≠ b := by omega
+end TenpyModel.C03
+
+/-! ### `itranspose` on the constructor's copies: they stay fresh -/
+namespace TenpyModel.C03
+
+theorem allocBlks_lists (h : Heap) (srcs : List Ref) (b : Bld) (bs : List BlkSrc) :
+    (allocBlks h srcs b bs).1.al.lists = b.al.lists ∧ (allocBlks h srcs b bs).1.h = b.h
+      ∧ (allocBlks h srcs b bs).1.al.arrs = b.al.arrs := by
+  induction bs generalizing b with
+  | nil => exact ⟨rfl, rfl, rfl⟩
+  | cons s ss ih =>
+    simp only [allocBlks]
+    have one : (allocBlk h srcs b s).1.al.lists = b.al.lists ∧ (allocBlk h srcs b s).1.h = b.h
+        ∧ (allocBlk h srcs b s).1.al.arrs = b.al.arrs := by
+      cases s <;> simp [allocBlk, Bld.buf]
+    obtain ⟨i1, i2, i3⟩ := ih (allocBlk h srcs b s).1
+    exact ⟨i1.trans one.1, i2.trans one.2.1, i3.trans one.2.2⟩
+
+theorem allocBlks_mem (h : Heap) (srcs : List Ref) (b : Bld) (bs : List BlkSrc) :
+    ∀ r ∈ (allocBlks h srcs b bs).2, b.h.bufs.length ≤ r
+      ∨ ∃ k i, BlkSrc.view k i ∈ bs ∧ r = (h.list (srcArr h srcs k).data).getD i 0 := by
+  induction bs generalizing b with
+  | nil => intro r hr; simp [allocBlks] at hr
+  | cons s ss ih =>
+    intro r hr
+    simp only [allocBlks, List.mem_cons] at hr
+    rcases hr with rfl | hr
+    · cases s with
+      | view k i => right; exact ⟨k, i, by simp, rfl⟩
+      | copy k i => left; simp [allocBlk, Bld.buf]
+      | fresh t => left; simp [allocBlk, Bld.buf]
+    · have hb : (allocBlk h srcs b s).1.h = b.h := (allocBlk_le h srcs b s).h
+      rcases ih _ r hr with h1 | ⟨k, i, hm, e⟩
+      · left; rw [hb] at h1; exact h1
+      · right; exact ⟨k, i, by simp [hm], e⟩
+
+end TenpyModel.C03
+
+namespace TenpyModel.C03
+
+def itrB (h : Heap) (c : Ref) (t : TrHint) : Bld :=
+  ⟨h, { bufs := [[tokOf h + 500], t.keys], lists := [(t.perm.map (LegSrc.src 0)).map (resolveLeg h [c])] }⟩
+
+def itrBlks (cy : Bool) (h : Heap) (c : Ref) (t : TrHint) : List BlkSrc :=
+  (List.range (nblk h c)).map fun i => if !cy || t.vf.getD i 0 != 0 then BlkSrc.view 0 i else BlkSrc.fresh (tokOf h + i)
+
+theorem step_itranspose (cy : Bool) (h : Heap) (c : Ref) (t : TrHint) :
+    step h (.inplace c (itransposeU cy h c t)) =
+      { arrs := h.arrs.set c { legs := h.lists.length, qtotal := (h.arr c).qtotal, labels := h.bufs.length,
+                               data := (allocBlks h [c] (itrB h c t) (itrBlks cy h c t)).1.h.lists.length
+                                         + (allocBlks h [c] (itrB h c t) (itrBlks cy h c t)).1.al.lists.length,
+                               qdata := h.bufs.length + 1, dtype := (h.arr c).dtype, qsorted := false },
+        lists := h.lists ++ ((allocBlks h [c] (itrB h c t) (itrBlks cy h c t)).1.al.lists
+                   ++ [(allocBlks h [c] (itrB h c t) (itrBlks cy h c t)).2]),
+        bufs := h.bufs ++ (allocBlks h [c] (itrB h c t) (itrBlks cy h c t)).1.al.bufs,
+        lbufs := h.lbufs ++ (allocBlks h [c] (itrB h c t) (itrBlks cy h c t)).1.al.lbufs,
+        legs := h.legs ++ (allocBlks h [c] (itrB h c t) (itrBlks cy h c t)).1.al.legs } := by
+  simp [step, plan, planInplace, itransposeU, updBuf, allocBuf, Bld.buf, Bld.list, Plan.apply, setMany, itrB, itrBlks]
+  exact (allocBlks_lists h [c] _ _).2.2
+
+/-- `itranspose` on a fresh tensor keeps it fresh: the new `legs` list, `_labels`, `_qdata`, `_data` list are new cells and the
+blocks are views of its own (fresh) blocks or new buffers -/
+theorem freshT_itranspose {h0 h : Heap} {c : Ref} (f : FreshT h0 h c) (cy : Bool) (t : TrHint) :
+    FreshT h0 (step h (.inplace c (itransposeU cy h c t))) c := by
+  have gr := step_grows h (.inplace c (itransposeU cy h c t))
+  rw [step_itranspose] at gr ⊢
+  obtain ⟨al1, al2, _⟩ := allocBlks_lists h [c] (itrB h c t) (itrBlks cy h c t)
+  have hmem := allocBlks_mem h [c] (itrB h c t) (itrBlks cy h c t)
+  generalize allocBlks h [c] (itrB h c t) (itrBlks cy h c t) = X at *
+  obtain ⟨b4, rs⟩ := X
+  simp only [itrB] at al1 al2 hmem
+  simp only [al1, al2, List.length_cons, List.length_nil, Nat.zero_add] at gr ⊢
+  have hA : ∀ (A : ArrObj) (L : List (List Ref)) (Bf LB : List (List Nat)) (G : List LegObj),
+      Heap.arr { arrs := h.arrs.set c A, lists := L, bufs := Bf, lbufs := LB, legs := G } c = A := by
+    intro A L Bf LB G; simp [Heap.arr, List.getElem?_set_self f.lt]
+  have hrs : ∀ r ∈ rs, h0.bufs.length ≤ r := by
+    intro r hr
+    rcases hmem r hr with h1 | ⟨k, i, hm, e⟩
+    · exact Nat.le_trans f.grow.bufs h1
+    · simp only [itrBlks, List.mem_map, List.mem_range] at hm
+      obtain ⟨i', hi', e'⟩ := hm
+      split at e'
+      · simp only [BlkSrc.view.injEq] at e'
+        obtain ⟨rfl, rfl⟩ := e'
+        rw [e]
+        apply f.bufs
+        simp only [wBufs, srcArr, List.getD_cons_zero, List.cons_append, List.nil_append, List.mem_cons]
+        right; right
+        simp only [nblk] at hi'
+        rw [List.getD_eq_getElem?_getD, List.getElem?_eq_getElem hi']
+        exact List.getElem_mem hi'
+      · cases e'
+  refine ⟨f.grow.trans gr, by simpa using f.lt, f.ge, ?_, ?_⟩
+  · intro x hx
+    simp only [mutLists, hA, List.mem_cons, List.not_mem_nil, or_false] at hx
+    have := f.grow.lists
+    rcases hx with rfl | rfl <;> simp <;> omega
+  · intro x hx
+    simp only [wBufs, hA, Heap.list] at hx
+    rw [List.getElem?_append_right (by omega)] at hx
+    simp only [List.cons_append, List.nil_append, List.mem_cons] at hx
+    have := f.grow.bufs
+    rcases hx with rfl | rfl | hx
+    · omega
+    · omega
+    · simp at hx
+      exact hrs x hx
+
+
+
+/-- a step that writes no Python list and not the object `c` itself keeps `c` fresh -/
+theorem freshT_step {h0 h : Heap} {c : Ref} (f : FreshT h0 h c) (op : Op) (hl : (plan h op).wr.lists = [])
+    (ha : ∀ w ∈ (plan h op).wr.arrs, w.1 ≠ c) : FreshT h0 (step h op) c := by
+  have eA : (step h op).arr c = h.arr c := by
+    simp only [Heap.arr, step, Plan.apply]
+    rw [store_old _ _ _ _ f.lt ha]
+  have eL : ∀ x ∈ mutLists h c, (step h op).list x = h.list x := by
+    intro x hx
+    simp only [Heap.list, step, Plan.apply, hl]
+    rw [store_old _ _ _ _ (f.lists x hx).2 (by simp)]
+  have eml : mutLists (step h op) c = mutLists h c := by simp only [mutLists, eA]
+  have ewb : wBufs (step h op) c = wBufs h c := by
+    simp only [wBufs, eA, eL (h.arr c).data (by simp [mutLists])]
+  refine ⟨f.grow.trans (step_grows h op), Nat.lt_of_lt_of_le f.lt (step_grows h op).arrs, f.ge, ?_, ?_⟩
+  · intro x hx; rw [eml] at hx
+    exact ⟨(f.lists x hx).1, Nat.lt_of_lt_of_le (f.lists x hx).2 (step_grows h op).lists⟩
+  · intro x hx; rw [ewb] at hx; exact f.bufs x hx
+
+/-- `B.itranspose(labels)` on `b`: every fresh tensor stays fresh (`b` itself included) -/
+theorem freshT_transposeH {h0 h : Heap} {c : Ref} (f : FreshT h0 h c) (cy : Bool) (b : Ref) (t : TrHint) :
+    FreshT h0 (transposeH cy h b t) c := by
+  rcases transposeH_eq cy h b t with e | e <;> rw [e]
+  · exact f
+  · by_cases hcb : c = b
+    · subst hcb; exact freshT_itranspose f cy t
+    · obtain ⟨e1, _⟩ := planInplace_rebindOnly h b (itransposeU cy h b t) (itransposeU_rebind cy h b t)
+      obtain ⟨_, _, wa, _, _⟩ := planInplace_writes h b (itransposeU cy h b t)
+      exact freshT_step f _ e1 (fun w hw e => hcb (e.symm.trans (wa w hw)))
+
+/-- the copies made by the constructors are fresh, with or without transposition -/
+theorem copyTensors_fresh' (cy : Bool) (dtype : Nat) (tr : Bool) (bs : List Ref) :
+    ∀ (h : Heap) (ts : List TrHint) (h' : Heap) (cs : List Ref), copyTensors cy dtype tr h bs ts = some (h', cs) →
+      (∀ h0 c0, FreshT h0 h c0 → FreshT h0 h' c0) ∧ (∀ c ∈ cs, FreshT h h' c) := by
+  induction bs with
+  | nil =>
+    intro h ts h' cs e
+    simp only [copyTensors, Option.some.injEq, Prod.mk.injEq] at e
+    obtain ⟨rfl, rfl⟩ := e
+    exact ⟨fun _ _ f => f, by simp⟩
+  | cons b bs ih =>
+    intro h ts h' cs e
+    simp only [copyTensors, callH_astype] at e
+    split at e
+    · cases e
+    · simp only [Option.map_eq_some_iff] at e
+      obtain ⟨⟨h2, cs2⟩, e2, e3⟩ := e
+      simp only [Prod.mk.injEq] at e3
+      obtain ⟨rfl, rfl⟩ := e3
+      obtain ⟨k2, f2⟩ := ih _ _ _ _ e2
+      have kT : ∀ h0 c0, FreshT h0 (step h (.derive (astypeD h b dtype))) c0 →
+          FreshT h0 (if tr = true then transposeH cy (step h (.derive (astypeD h b dtype))) h.arrs.length (ts.headD {})
+                     else step h (.derive (astypeD h b dtype))) c0 := by
+        intro h0 c0 f
+        split
+        · exact freshT_transposeH f cy _ _
+        · exact f
+      have gT : Grows h (if tr = true then transposeH cy (step h (.derive (astypeD h b dtype))) h.arrs.length (ts.headD {})
+                          else step h (.derive (astypeD h b dtype))) := by
+        split
+        · exact (step_grows h _).trans (transposeH_frame cy _ _ _).2
+        · exact step_grows h _
+      have f1 : FreshT h (step h (.derive (astypeD h b dtype))) h.arrs.length := freshT_derive h _ (astypeD_semi h b dtype)
+      refine ⟨fun h0 c0 f => k2 h0 c0 (kT h0 c0 (freshT_pure f _ (planDerive_wr h _))), ?_⟩
+      intro c hc
+      simp only [List.mem_cons] at hc
+      rcases hc with rfl | hc
+      · exact k2 _ _ (kT _ _ f1)
+      · exact (f2 c hc).weaken gT
+
+end TenpyModel.C03
+
+/-! ### `MPO.sort_legcharges`: the tensor-level part is a frame -/
+namespace TenpyModel.C03
+
+theorem emitLegs_frame (s : St) (ds : List LegDerive) :
+    HFrame s.h (emitLegs s ds).1.h ∧ ∀ h0 c, FreshT h0 s.h c → FreshT h0 (emitLegs s ds).1.h c := by
+  unfold emitLegs
+  suffices h : ∀ (acc : St × List Ref),
+      HFrame acc.1.h (ds.foldl (fun (acc : St × List Ref) d => let (s', r) := acc.1.emit (.leg d); (s', acc.2 ++ [r])) acc).1.h
+        ∧ ∀ h0 c, FreshT h0 acc.1.h c →
+            FreshT h0 (ds.foldl (fun (acc : St × List Ref) d => let (s', r) := acc.1.emit (.leg d); (s', acc.2 ++ [r])) acc).1.h c
+    from h (s, [])
+  induction ds with
+  | nil => intro acc; exact ⟨HFrame.refl _, fun _ _ f => f⟩
+  | cons d ds ih =>
+    intro acc
+    obtain ⟨f, k⟩ := ih ((acc.1.emit (.leg d)).1, acc.2 ++ [(acc.1.emit (.leg d)).2])
+    have f1 : HFrame acc.1.h (acc.1.emit (.leg d)).1.h := hframe_pure _ _ (planLeg_wr _ d)
+    exact ⟨f1.trans f, fun h0 c fr => k h0 c (freshT_pure fr _ (planLeg_wr _ d))⟩
+
+theorem callH_transpose_frame (cy : Bool) (h : Heap) (x : Args) : HFrame h (callH cy h .transpose x).1 := by
+  simp only [callH, callSt]
+  split <;> exact hframe_derive _ _
+
+/-- the call `fresh`: leg-producing operations, then the derivation of a tensor all of whose writable containers are new -/
+theorem callH_fresh_spec (cy : Bool) (h : Heap) (x : Args) :
+    ∃ hm d, callH cy h .fresh x = (step hm (.derive d), hm.arrs.length) ∧ HFrame h hm ∧ d.semiIsolated = true := by
+  simp only [callH, callSt, emit_h, emit_ref, derive_res, derive_res']
+  refine ⟨_, _, rfl, (emitLegs_frame { h := h } _).1, ?_⟩
+  simp [Derive.semiIsolated, BufSrc.notShared, freshBlks_notView]
+
+/-- the call `to_LegCharge_legs`: leg-producing operations, then one in-place method on operand 0 that does not write the
+total charge -/
+theorem callH_toLC_spec (cy : Bool) (h : Heap) (x : Args) :
+    ∃ hm u, (callH cy h .to_LegCharge_legs x).1 = step hm (.inplace (x.A 0) u) ∧ HFrame h hm
+      ∧ (∀ h0 c, FreshT h0 h c → FreshT h0 hm c) ∧ u.qtSafe = true := by
+  simp only [callH, callSt, emit_h]
+  exact ⟨_, _, rfl, (emitLegs_frame { h := h } _).1, (emitLegs_frame { h := h } _).2, rfl⟩
+
+/-- `w.transpose(...)`, `sort_legcharge(...)` on one stored tensor: every tensor that existed is unchanged (the in-place
+replacement of the sorted legs acts on the new tensor) -/
+theorem sortOne_frame (cy : Bool) (h : Heap) (w : Ref) (t : SortHint) :
+    HFrame h (callH cy (callH cy (callH cy h .transpose { t.tr with a := [w] }).1 .fresh
+      { t.fresh with a := [(callH cy h .transpose { t.tr with a := [w] }).2] }).1 .to_LegCharge_legs
+      { a := [(callH cy (callH cy h .transpose { t.tr with a := [w] }).1 .fresh
+          { t.fresh with a := [(callH cy h .transpose { t.tr with a := [w] }).2] }).2], l := [t.axes] }).1 := by
+  have F1 := callH_transpose_frame cy h { t.tr with a := [w] }
+  generalize callH cy h .transpose { t.tr with a := [w] } = r1 at *
+  obtain ⟨hm, d, e2, F2, sd⟩ := callH_fresh_spec cy r1.1 { t.fresh with a := [r1.2] }
+  rw [e2]
+  simp only
+  have fr : FreshT hm (step hm (.derive d)) hm.arrs.length := freshT_derive hm d sd
+  obtain ⟨hm3, u, e3, F3, k3, hq⟩ := callH_toLC_spec cy (step hm (.derive d)) { a := [hm.arrs.length], l := [t.axes] }
+  rw [e3]
+  simp only [Args.A, List.getD_cons_zero]
+  have F : HFrame h hm3 := ((F1.trans F2).trans (hframe_derive hm d)).trans F3
+  have fr3 : FreshT h hm3 hm.arrs.length := (k3 _ _ fr).weaken (F1.trans F2).grow
+  refine ⟨fun r hc => ?_, F.grow.trans (step_grows _ _)⟩
+  obtain ⟨o, c, ml, mb⟩ := F.obs r hc
+  have hal := freshT_not_aliased fr3 hc ml mb
+  obtain ⟨o2, c2, m2, b2⟩ := keeps_frame (inplace_keeps_q hm3 _ u hq r c hal)
+  exact ⟨o2.trans o, c2, m2.trans ml, b2.trans mb⟩
+
+theorem sortTensors_frame (cy : Bool) (ws : List Ref) : ∀ (h : Heap) (hs : List SortHint), HFrame h (sortTensors cy h ws hs).1 := by
+  induction ws with
+  | nil => intro h hs; exact HFrame.refl h
+  | cons w ws ih =>
+    intro h hs
+    simp only [sortTensors]
+    exact (sortOne_frame cy h w (hs.headD {})).trans (ih _ _)
 
 end TenpyModel.C03
